@@ -538,6 +538,79 @@ func runAuthz(c *Ctx, plan any) {
 			}
 		}
 	}
+	// replies that disclose something must follow an authorised request
+	w.onClientMsg = func(sc *simClient, rm recvMsg) {
+		reqKind := ""
+		switch {
+		case rm.Type == "usermessage" && rm.Kind == "tokenlist":
+			if _, isList := rm.M["value"].([]any); isList {
+				reqKind = "listtokens"
+			}
+		case rm.Type == "usermessage" && rm.Kind == "userinfo":
+			reqKind = "identify"
+		case rm.Type == "usermessage" && rm.Kind == "token":
+			if _, isTok := rm.M["value"].(map[string]any); isTok && rm.M["error"] == nil {
+				reqKind = "token"
+			}
+		case rm.Type == "chat" && rm.M["username"] == "Server":
+			reqKind = "subgroups"
+		}
+		if reqKind == "" {
+			return
+		}
+		// candidate requests of this client, oldest first
+		var reqs []*handled
+		consider := func(h *handled) {
+			if h.Client != sc || !h.Before.InGroup {
+				return
+			}
+			if h.Kind == reqKind || (reqKind == "token" && (h.Kind == "maketoken" || h.Kind == "edittoken")) {
+				reqs = append(reqs, h)
+			}
+		}
+		for _, h := range w.handledL {
+			consider(h)
+		}
+		for _, h := range w.inflight {
+			consider(h)
+		}
+		sort.Slice(reqs, func(i, j int) bool { return reqs[i].Enter < reqs[j].Enter })
+		if len(reqs) == 0 {
+			c.Violation("C11.unrequested-disclosure", "client %s was sent %s/%s without having asked as a member", sc.id, rm.Type, rm.Kind)
+			return
+		}
+		var last *handled
+		if reqKind == "listtokens" {
+			// every listtokens request of a member is answered by exactly one
+			// tokenlist message (list or error), in order
+			k := 0
+			for _, o := range sc.recv {
+				if o.Type == "usermessage" && o.Kind == "tokenlist" && o.Stamp < rm.Stamp {
+					k++
+				}
+			}
+			if k < len(reqs) {
+				last = reqs[k]
+			} else {
+				last = reqs[len(reqs)-1]
+			}
+		} else {
+			// any authorised request of that kind so far justifies the reply
+			for _, h := range reqs {
+				need, _, _ := requiredPerm(h.Type, h.Kind)
+				if hasPerm(h.Before.Permissions, need) {
+					last = h
+				}
+			}
+			if last == nil {
+				last = reqs[len(reqs)-1]
+			}
+		}
+		need, _, _ := requiredPerm(last.Type, last.Kind)
+		if !last.Before.InGroup || !hasPerm(last.Before.Permissions, need) {
+			c.Violation("C11.unauthorised-disclosure", "client %s (member=%v, permissions %v) asked %s/%s, which needs %q, and was answered with %s/%s: %.200v", sc.id, last.Before.InGroup, last.Before.Permissions, last.Type, last.Kind, need, rm.Type, rm.Kind, rm.M["value"])
+		}
+	}
 	x.onWhipResource = func(op *confOp, s whipSession, res httpResult) {
 		same := op.Sub == ""
 		if s.token != "" && !same && res.Status >= 200 && res.Status < 300 {
